@@ -32,7 +32,7 @@ from vcore import Failure, REPO
 
 PROP = "C20"
 RULE = (
-    "bounded-exhaustive: every 3-choice list over 2 names x labeled/unlabeled x duplicates allowed or not; every subset of 3 translatable columns x {default, 2 languages} on the survey sheet and on the "
+    "bounded-exhaustive: begin group/repeat x 6 label shapes x 7 appearances (field-list / table-list combinations) x 3 placements; every 3-choice list over 2 names x labeled/unlabeled x duplicates allowed or not; every subset of 3 translatable columns x {default, 2 languages} on the survey sheet and on the "
     "choices sheet (512 each per column triple, converted), every string within edit radius 1 of each supported sheet "
     "name over a 31-letter alphabet (+ samples of radius 2/3, case variants, underscore prefixes), language labels x "
     "bracketed-code shapes; random: generated forms with row-level triggers (disabled, comment rows, deprecated types, "
@@ -661,6 +661,8 @@ def triggered_form(rng, big=False) -> dict:
             for k in [k for k in row if k.startswith(("label", "hint"))]:
                 row.pop(k)
         if t.startswith("begin "):
+            if r >= 0.35 and rng.random() < 0.25:
+                row["appearance"] = rng.choice(["field-list", "table-list", "field-list compact", "table-list compact", "compact"])
             if r < 0.35:
                 for k in [k for k in row if k.startswith("label")]:
                     row.pop(k)
@@ -777,6 +779,37 @@ def choice_list_enum(ctx):
                 workbook_case(ctx, case, "choice_enum")
 
 
+def section_label_enum(ctx):
+    """begin group / repeat x {labelled, labelled in a language, media only, hint only, bare} x appearance
+    (none, field-list, table-list and combinations) with two selects sharing one list inside (so that table-list is
+    a valid layout), at top level and after/inside another section: which rows get the 'has no label' warning."""
+    labels = [{"label": "Sec"}, {"label::English (en)": "Sec"}, {"image": "s.png"}, {"hint": "only a hint"}, {},
+              {"label": "Sec", "hint": "and a hint"}]
+    appearances = [None, "field-list", "table-list", "table-list compact", "field-list compact", "compact", "table-list field-list"]
+    for ctl in ("group", "repeat"):
+        for lab in labels:
+            for ap in appearances:
+                for nest in (0, 1, 2):
+                    sec = {"type": f"begin {ctl}", "name": "s1", **lab}
+                    if ap:
+                        sec["appearance"] = ap
+                    inner = [sec,
+                             {"type": "select_one yn", "name": "q1", "label": "Q1"},
+                             {"type": "select_one yn", "name": "q2", "label": "Q2"},
+                             {"type": f"end {ctl}"}]
+                    if nest == 1:
+                        rows = [{"type": "begin repeat", "name": "r0", "label": "R"}, {"type": "text", "name": "t0", "label": "T"},
+                                {"type": "end repeat"}] + inner
+                    elif nest == 2:
+                        rows = [{"type": "begin group", "name": "g0"}] + inner + [{"type": "end group"}]
+                    else:
+                        rows = inner
+                    case = {"survey": rows,
+                            "choices": [{"list_name": "yn", "name": "y", "label": "Yes"}, {"list_name": "yn", "name": "n", "label": "No"}]}
+                    ctx.count("section_enum:cases")
+                    workbook_case(ctx, case, "section_enum")
+
+
 def directed_cases(ctx):
     """The former F28 witness (a present, data-less sheet spelled in another letter case) and its neighbours, also
     through the md reader; short / coded / uncoded language labels."""
@@ -814,6 +847,7 @@ def explore(ctx, factor, bs):
     rng = ctx.rng
     directed_cases(ctx)
     choice_list_enum(ctx)
+    section_label_enum(ctx)
     lev_cases(ctx, ctx.pick(3000, 40000) * factor)
     misspell_cases(ctx, factor)
     header_cases(ctx, ctx.pick(1500, 20000) * factor)
